@@ -12,6 +12,9 @@ class Inconclusive(Exception):
     pass
 
 
+EMPTY = frozenset()
+
+
 class Aligned:
     """Incremental solver whose assertion stack mirrors a prefix-ordered list of constraints."""
 
@@ -66,17 +69,21 @@ class SolverLayer:
             s.set("timeout", timeout_ms)
             return s
         self.light = Aligned(mk_light)
-        self.heavy = Aligned(mk_heavy)
+        self.mk_heavy = mk_heavy
+        self.heavies = {}      # frozenset of table names -> Aligned solver holding exactly those tables' facts
+        self.table_facts = {}  # table name -> list of ground facts asserted so far
+        self.table_info = {}
         self.einfo = {}        # ast id -> (frozenset sym names, uses_table, expr)   (expr kept alive)
         self.qcache = {}       # (group keys, cond id) -> (sat, partial model dict)
         self.intern = {}       # (cid, nodes) -> node id
-        self.node_tab = [False]
+        self.node_tab = [EMPTY]
         self.node_syms = [frozenset()]
+        self.node_parents = [()]
         self.symobj = {}       # name -> z3 const
         self.valcache = {}     # (name, value) -> z3 numeral
         self.tables_model = None
         self.stats = dict(queries=0, light=0, heavy=0, cache_hits=0, model_hits=0, qtime=0.0, heavy_t=0.0,
-                          light_t=0.0, sat=0, unsat=0)
+                          light_t=0.0, sat=0, unsat=0, subsumed=0)
         self.dump = None       # optional list collecting (sliced smt2) for cross-checking
 
     # ---------------------------------------------------------------- expression info
@@ -98,22 +105,24 @@ class SolverLayer:
                 if n == 0:
                     d = x.decl() if z3.is_app(x) else None
                     if d is not None and d.kind() == z3.Z3_OP_UNINTERPRETED:
-                        einfo[xi] = (frozenset((d.name(),)), False, x)
+                        einfo[xi] = (frozenset((d.name(),)), EMPTY, x)
                     else:
-                        einfo[xi] = (frozenset(), False, x)
+                        einfo[xi] = (EMPTY, EMPTY, x)
                     continue
                 stack.append((x, True))
                 for c in x.children():
                     if c.get_id() not in einfo:
                         stack.append((c, False))
             else:
-                syms = frozenset()
-                tab = x.decl().kind() == z3.Z3_OP_UNINTERPRETED
+                syms = EMPTY
+                d = x.decl()
+                tab = frozenset((d.name(),)) if d.kind() == z3.Z3_OP_UNINTERPRETED else EMPTY
                 for c in x.children():
                     ci = einfo[c.get_id()]
                     if ci[0]:
                         syms = syms | ci[0] if syms else ci[0]
-                    tab = tab or ci[1]
+                    if ci[1]:
+                        tab = tab | ci[1] if tab else ci[1]
                 einfo[xi] = (syms, tab, x)
         return einfo[i]
 
@@ -141,10 +150,12 @@ class SolverLayer:
             t = tab
             sy = set(syms)
             for g in nodes:
-                t = t or self.node_tab[g]
+                if self.node_tab[g]:
+                    t = t | self.node_tab[g]
                 sy |= self.node_syms[g]
             self.node_tab.append(t)
             self.node_syms.append(frozenset(sy))
+            self.node_parents.append(key[1])
         for s in self.node_syms[nid]:
             grp[s] = nid
 
@@ -157,7 +168,8 @@ class SolverLayer:
             if g:
                 nodes.add(g)
         for g in nodes:
-            tab = tab or self.node_tab[g]
+            if self.node_tab[g]:
+                tab = tab | self.node_tab[g]
         return (tuple(sorted(nodes)), cond.get_id()), tab, nodes, syms
 
     # ---------------------------------------------------------------- model evaluation
@@ -220,9 +232,12 @@ class SolverLayer:
 
     # ---------------------------------------------------------------- tables
     def add_table(self, f, entries, width, idx_width=64):
-        """f: z3 function (BV64 -> BVwidth); entries: list of (index, value)"""
-        facts = [f(z3.BitVecVal(k, idx_width)) == z3.BitVecVal(v, width) for k, v in entries]
-        self.heavy.add_base(facts)
+        """register constant table f (BV idx_width -> BV width).  Ground facts are asserted lazily, only for
+        the index ranges that reads on explored paths can reach (ensure_table_range): a query's cost grows with
+        the number of facts present, so a sharded job only ever sees its own part of a large table."""
+        name = f.name()
+        self.table_info[name] = dict(f=f, vals=[v for k, v in entries], width=width, iw=idx_width, have=set())
+        self.table_facts[name] = []
         if self.tables_model is None:
             self.tables_model = z3.Model()
         m = self.tables_model
@@ -235,15 +250,42 @@ class SolverLayer:
             av.push(z3.BitVecVal(k, idx_width))
             z3.Z3_func_interp_add_entry(ctx, fi.f, av.vector, z3.BitVecVal(v, width).as_ast())
 
+    BLOCK = 64
+
+    def ensure_table_range(self, name, lo, hi):
+        """make sure the ground facts for entries lo..=hi of table `name` are present in every heavy solver that
+        holds this table (blocks of 64 entries)"""
+        ti = self.table_info[name]
+        B = self.BLOCK
+        new = []
+        f = ti["f"]
+        vals = ti["vals"]
+        for b in range(lo // B, hi // B + 1):
+            if b in ti["have"]:
+                continue
+            ti["have"].add(b)
+            for k in range(b * B, min((b + 1) * B, len(vals))):
+                new.append(f(z3.BitVecVal(k, ti["iw"])) == z3.BitVecVal(vals[k], ti["width"]))
+        if new:
+            self.table_facts[name].extend(new)
+            self.stats["facts_asserted"] = self.stats.get("facts_asserted", 0) + len(new)
+            for tabs, sv in self.heavies.items():
+                if name in tabs:
+                    sv.add_base(new)
+
     # ---------------------------------------------------------------- queries
     def check(self, st, cond):
         """Is pc(st) /\\ cond satisfiable?  Returns a model dict (name->int) for all symbols of st, or None.
         cond may be None (just the pc)."""
         stats = self.stats
         if cond is None:
-            key, tab, nodes, csyms = ((), -1), False, (), frozenset()
+            key, nodes, csyms = ((), -1), (), frozenset()
             # whole pc
-            tab = len(st.lpc) != len(st.pc)
+            tab = EMPTY
+            for c in st.pc:
+                t = self.info(c)[1]
+                if t:
+                    tab = tab | t
         else:
             key, tab, nodes, csyms = self.slice_key(st, cond)
             hit = self.qcache.get(key)
@@ -255,9 +297,28 @@ class SolverLayer:
                 m = dict(st.model) if st.model else {}
                 m.update(part)
                 return m
+            # monotonicity: unsat under a subset of the constraints (an ancestor of the group) stays unsat
+            if len(key[0]) == 1:
+                cid = key[1]
+                g = key[0][0]
+                for _ in range(24):
+                    ps = self.node_parents[g]
+                    if len(ps) != 1:
+                        break
+                    g = ps[0]
+                    h = self.qcache.get(((g,), cid))
+                    if h is not None and not h[0]:
+                        stats["cache_hits"] += 1
+                        stats["subsumed"] = stats.get("subsumed", 0) + 1
+                        self.qcache[key] = (False, None)
+                        return None
         t0 = time.time()
         if tab:
-            sv = self.heavy
+            sv = self.heavies.get(tab)
+            if sv is None:
+                sv = self.heavies[tab] = Aligned(self.mk_heavy)
+                for t in sorted(tab):
+                    sv.add_base(self.table_facts[t])
             sv.sync(st.pc_ids, st.pc)
             stats["heavy"] += 1
         else:
@@ -272,7 +333,7 @@ class SolverLayer:
         if r == z3.unknown:
             raise Inconclusive("solver returned unknown: %s" % sv.s.reason_unknown())
         if self.dump is not None and cond is not None:
-            self.dump.append((st.pc if tab else st.lpc, cond, r == z3.sat, tab))
+            self.dump.append((st.pc if tab else st.lpc, cond, r == z3.sat, bool(tab)))
         if r == z3.unsat:
             stats["unsat"] += 1
             if cond is not None:
